@@ -52,6 +52,14 @@ def integrate_case(case):
 
     ux = hux.import_ux()
     mesh = case["mesh"]
+    exact_areas = None
+    if case.get("mult"):
+        # the exact shrink map v -> (M-1)(v.c)c + (c.c)v, c the x axis, in unbounded integers; exact face areas
+        # from the cancellation-free fan descriptor (validated against TLC's values at M = 1, 2, 5)
+        M = int(case["mult"])
+        nodes = [list(X.shrink_x(M, tuple(v))) for v in mesh["nodes"]]
+        mesh = dict(mesh, id="%s@M%d" % (mesh["id"], M), nodes=nodes)
+        exact_areas = [X.fan_excess(X.fan_descr([tuple(nodes[v]) for v in f])) for f in mesh["faces"]]
     exp = case["expected"]
     rec = {
         "id": case["id"],
@@ -69,6 +77,7 @@ def integrate_case(case):
         "storage": case["storage"],
         "square": bool(case["square"]),
         "prev": case["prev"],
+        "mult": int(case.get("mult") or 0),
     }
     rule, order = X.RULE_NAMES[case["quad"]]
     try:
@@ -123,6 +132,13 @@ def integrate_case(case):
                 scale = math.fsum(abs(c) * a for c, a in zip(row, areas)) or 1.0
                 qs.append(X.quant(v - e, scale))
             rec["q"] = X.qmax(qs)
+            if exact_areas is not None:
+                qx = []
+                for row, v in zip(exp["coeff"], got):
+                    e = math.fsum(c * a for c, a in zip(row, exact_areas))
+                    scale = math.fsum(abs(c) * a for c, a in zip(row, exact_areas)) or 1.0
+                    qx.append(X.quant(v - e, scale))
+                rec["qx"] = X.qmax(qx)
             rec["value0"] = got[0] if got else None
             if case["api"] == "isel":
                 # the parts of a partition add up to the integral over the parent (all from the same parent object)
@@ -148,3 +164,107 @@ def integrate_case(case):
     except Exception as e:  # noqa
         return {"machinery": "could not project the result of case %s: %s: %s" % (case["id"], type(e).__name__, str(e)[:200])}
     return rec
+
+
+# ----------------------------------------------------------------------------- two grids in one process (DimsProcess.tla)
+TETRA = {"id": "tetrahedron", "nodes": [[1, 1, 1], [1, -1, -1], [-1, 1, -1], [-1, -1, 1]], "faces": [[0, 1, 2], [0, 3, 1], [0, 2, 3], [1, 3, 2]]}
+FMT_DIMS = {"esmf": {"face": "elementCount", "node": "nodeCount"}, "ugrid": {"face": "b", "node": "a"}, "scrip": {"face": "grid_size"}}
+
+
+def dims_grid_dataset(fmt):
+    """In-memory source dataset of the tetrahedron (n_node = n_face = 4) in the given format."""
+    import numpy as np
+    import xarray as xr
+    from harness import lattice as L
+
+    _, FILL = hux.consts()
+    ll = [L.lonlat_deg(tuple(v)) for v in TETRA["nodes"]]
+    lon = np.array([p[0] for p in ll])
+    lat = np.array([p[1] for p in ll])
+    conn = np.array(TETRA["faces"], dtype=np.int64)
+    ds = xr.Dataset()
+    if fmt == "esmf":
+        ds["nodeCoords"] = xr.DataArray(np.stack([lon, lat], axis=1), dims=["nodeCount", "coordDim"], attrs={"units": "degrees"})
+        ds["elementConn"] = xr.DataArray((conn + 1).astype(np.int32), dims=["elementCount", "maxNodePElement"], attrs={"long_name": "Node indices that define the element connectivity", "start_index": np.int32(1)})
+        ds["numElementConn"] = xr.DataArray(np.full(len(conn), 3, dtype=np.int32), dims=["elementCount"])
+        ds.attrs["gridType"] = "unstructured mesh"
+    elif fmt == "ugrid":
+        ds["xs"] = xr.DataArray(lon, dims=["a"], attrs={"standard_name": "longitude", "units": "degrees_east"})
+        ds["ys"] = xr.DataArray(lat, dims=["a"], attrs={"standard_name": "latitude", "units": "degrees_north"})
+        ds["f2n"] = xr.DataArray(conn, dims=["b", "c"], attrs={"cf_role": "face_node_connectivity", "start_index": np.int32(0), "_FillValue": FILL})
+        ds["Mesh2"] = xr.DataArray(np.int32(-1), attrs={"cf_role": "mesh_topology", "topology_dimension": np.int32(2), "node_coordinates": "xs ys", "face_node_connectivity": "f2n", "face_dimension": "b", "node_dimension": "a"})
+    elif fmt == "scrip":
+        cen = [L.lonlat_deg(tuple(sum(TETRA["nodes"][v][k] for v in f) for k in range(3))) for f in TETRA["faces"]]
+        ds["grid_corner_lon"] = xr.DataArray(lon[conn], dims=["grid_size", "grid_corners"], attrs={"units": "degrees"})
+        ds["grid_corner_lat"] = xr.DataArray(lat[conn], dims=["grid_size", "grid_corners"], attrs={"units": "degrees"})
+        ds["grid_center_lon"] = xr.DataArray(np.array([c[0] for c in cen]), dims=["grid_size"], attrs={"units": "degrees"})
+        ds["grid_center_lat"] = xr.DataArray(np.array([c[1] for c in cen]), dims=["grid_size"], attrs={"units": "degrees"})
+        ds["grid_area"] = xr.DataArray(np.full(len(conn), math.pi), dims=["grid_size"], attrs={"units": "radians^2"})
+        ds["grid_imask"] = xr.DataArray(np.ones(len(conn), dtype=np.int32), dims=["grid_size"])
+        ds["grid_dims"] = xr.DataArray(np.array([len(conn)], dtype=np.int32), dims=["grid_rank"])
+    else:
+        raise KeyError(fmt)
+    return ds
+
+
+def dims_write_data(path, fmt, kinds):
+    """A data file whose variables live on the format's own face / node dimension names (with a leading time)."""
+    import numpy as np
+    import xarray as xr
+
+    ds = xr.Dataset()
+    for k in sorted(kinds):
+        n = 4
+        ds["v_" + k] = xr.DataArray(np.arange(2 * n, dtype=float).reshape(2, n) + (1.0 if k == "face" else 3.0), dims=["time", FMT_DIMS[fmt][k]])
+    ds.to_netcdf(path)
+
+
+def _templates():
+    import sys
+
+    out = {}
+    for name, mod in list(sys.modules.items()):
+        if mod is not None and (name.startswith("uxarray.io") or name.startswith("uxarray.conventions")):
+            for attr, val in vars(mod).items():
+                if not attr.startswith("__") and isinstance(val, (dict, list, set)):
+                    out[name + "." + attr] = repr(val)
+    return out
+
+
+def dims_case(item):
+    """item: {"id", "opens": [[fmt, [kinds]]], "files": {"fmt|kinds": path}} -> trace for DimsProcess!TrJudge."""
+    import numpy as np
+
+    ux = hux.import_ux()
+    areas, _ = _fresh_areas(dict(TETRA, nf=4, nn=4, ne=6), "t4")
+    steps = []
+    for fmt, kinds in item["opens"]:
+        kinds = sorted(kinds)
+        st = {"fmt": fmt, "data": kinds, "obs": [], "templates_changed": False, "changed": []}
+        before = _templates()
+        try:
+            uxds = ux.open_dataset(dims_grid_dataset(fmt), item["files"]["%s|%s" % (fmt, "+".join(kinds))])
+        except Exception as e:  # noqa
+            return {"machinery": "open_dataset(%s, %s) raised %s: %s" % (fmt, kinds, type(e).__name__, str(e)[:200])}
+        after = _templates()
+        st["changed"] = sorted(k for k in after if before.get(k) != after[k])
+        st["templates_changed"] = bool(st["changed"])
+        for k in kinds:
+            da = uxds["v_" + k]
+            label = [str(d) for d in da.dims]
+            try:
+                r = da.integrate()
+                got = [float(v) for v in np.asarray(r.values, dtype=float).reshape(-1)]
+                src = np.arange(8, dtype=float).reshape(2, 4) + (1.0 if k == "face" else 3.0)
+                exp = [math.fsum(float(c) * a for c, a in zip(row, areas)) for row in src]
+                ok = len(got) == 2 and all(abs(g_ - e_) <= 1e-12 * abs(e_) for g_, e_ in zip(got, exp))
+                outcome = "value" if (ok or k == "node") else "wrong_value"
+            except ValueError:
+                outcome = "rejected"
+            except Exception as e:  # noqa
+                outcome = "raised_other"
+                st.setdefault("errors", []).append("%s: %s" % (type(e).__name__, str(e)[:120]))
+            st["obs"].append([k, outcome])
+            st.setdefault("labels", {})[k] = label
+        steps.append(st)
+    return {"id": item["id"], "steps": steps}
